@@ -4,7 +4,7 @@ medium, and the direct predicate of the property on the implementation trace."""
 import ssm_common as S
 
 PROP = 'C04'
-COQ_TARGETS = ['theories/SsmFacts.vo', 'theories/SsmC04.vo', 'theories/SsmC04t.vo', 'theories/SsmC04s.vo', 'theories/SsmC05.vo']
+COQ_TARGETS = ['theories/SsmFacts.vo', 'theories/SsmC04.vo', 'theories/SsmC04t.vo', 'theories/SsmC04s.vo', 'theories/SsmC04w.vo', 'theories/SsmC04h.vo', 'theories/SsmC05.vo']
 COQ_IMPORTS = S.COQ_IMPORTS
 RULE = ('cases: one confirmed request between two nodes (max-APDU 50..206, all 16 segmentation pairs, windows 1..8, retries 0..3, '
         'timeouts 250..3000 ms, payloads around every segment boundary, every kind of answer incl. silence and a slow application) under '
